@@ -545,6 +545,78 @@ def c10_cli(ctx, cases):
     return viol[:4], []
 
 
+def c02_cli(ctx, cases):
+    """C02 at CLI level: the real binary says 'no feasible solution' exactly when caobab::solve (whose history is validated in Coq) finds none,
+    and for instances outside class TC it writes the score caobab::solve returns"""
+    count = 60 if ctx.tier == "quick" else 400
+    metas, recs = cli_records(ctx, ctx.seed + 5, count, VARIANTS_C10)
+    viol = []
+    stats = Counter()
+    for r in recs:
+        run, m = r["run"], r["meta"]
+        stats["runs"] += 1
+        if not (r["code"] & CLI["class"]) or (r["code"] & CLI["tc"]) or run["timeout"] or run["rc"] not in (0, 1):
+            stats["skipped_invalid_or_tc_or_abnormal"] += 1
+            continue
+        lib = m["lib"]["result"]
+        stats["tight_instances"] += 1 if m["inst"].get("style") == "tight" else 0
+        w = None
+        if run["rc"] == 1 and lib is not None:
+            w = "C02: the program reports that no feasible solution exists although caobab::solve finds one (score %s)" % lib["score"]
+        elif run["rc"] == 0 and lib is None:
+            w = "C02: the program reports a solution although caobab::solve finds none"
+        elif run["rc"] == 0 and isinstance(r["out"], tuple) and r["out"][1] != lib["score"]:
+            w = "C02: the score written (%s) differs from the optimum caobab::solve returns (%s)" % (r["out"][1], lib["score"])
+        else:
+            stats["verdicts_compared"] += 1
+        if w:
+            viol.append(cli_violation(ctx, r, w))
+    ctx.extra_cov = {"cli_runs": dict(stats)}
+    return viol[:4], []
+
+
+def c06_cli(ctx, cases):
+    """C06 at CLI level: whatever the real binary writes when it was given rooms (--rooms / --rooms-file) can be housed in those rooms"""
+    count = 60 if ctx.tier == "quick" else 400
+    metas, recs = cli_records(ctx, ctx.seed + 5, count, VARIANTS_C10)
+    viol = []
+    stats = Counter()
+    for r in recs:
+        stats["runs"] += 1
+        if r["run"]["rc"] != 0 or not isinstance(r["out"], tuple) or r.get("rooms_arg") is None or not (r["code"] & CLI["class"]):
+            continue
+        stats["solutions_with_rooms_checked"] += 1
+        if r["rooms_arg"][0] == "file" and not r["rooms_arg"][1]:
+            stats["with_empty_rooms_file"] += 1
+        if not (r["code"] & CLI["housed"]):
+            viol.append(cli_violation(ctx, r, "C06: the assignment the program wrote cannot be housed in the given rooms (housedb on the output "
+                                              "file's assignment, effective sizes with the instance's factors/offsets)"))
+    ctx.extra_cov = {"cli_runs": dict(stats)}
+    return viol[:4], []
+
+
+def c18_cli(ctx, cases):
+    """C18 at CLI level: the 'possible course rooms' lines of --print are, byte for byte, the strings of the model of io/rooms.rs
+    (RoomsModel.possible / kind_names on the effective sizes of the written assignment; CorrCliText.check_text)"""
+    count = 120 if ctx.tier == "quick" else 800
+    metas, recs = cli_records(ctx, ctx.seed + 6, count, VARIANTS_C14)
+    viol = []
+    stats = Counter()
+    for r in recs:
+        stats["runs"] += 1
+        if r.get("text_code") is None or r.get("rooms_arg") is None:
+            continue
+        stats["print_runs_with_rooms_compared"] += 1
+        stats["rooms_%s" % r["rooms_arg"][0]] += 1
+        if any(c["fixed"] for c in r["meta"]["inst"]["courses"]):
+            stats["with_fixed_courses"] += 1
+        if not (r["text_code"] & 1):
+            viol.append(cli_violation(ctx, r, "C18: the text printed with --print (possible course rooms lines) differs from the model of "
+                                              "io/rooms.rs on the written assignment (CorrCliText.check_text)"))
+    ctx.extra_cov = {"cli_runs": dict(stats)}
+    return viol[:4], []
+
+
 def spec_c10(c):
     if c["stream"] == "node" and has(c, NODE, "class") and (c["code"] & NODE["impl_panic"]):
         return "C10: run_bab_node panics on a valid instance and well-formed node"
@@ -1309,7 +1381,9 @@ REGISTRY = {
                     "Coq with Cli.exit_code); any panic/abort/hang or an output file after a refusal is a violation.",
         trusted_base=["modelled: the decision skeleton of main.rs, io::simple::read, io::check_data_consistency; serde_json text -> Value and clap "
                       "parsing are trusted libraries; the CdE reader is the model of C12 (total by construction, exact correspondence there); time / "
-                      "memory exhaustion for absurd sizes (>= 5000 course places) is a resource limit outside the claim"],
+                      "memory exhaustion for absurd sizes (>= 5000 course places) is a resource limit outside the claim, as are thread-creation failure for an absurd "
+                      "--num-threads, the memory of the possible-rooms listing (courses x rooms), a closed stdout with --print and the u32 statistics "
+                      "counters after 2^32 subproblems (audit of all panic sites, DESIGN 10.4a D16)"],
         assumptions=["'malformed' = some stage returns Err, as predicted by the reader model (simple format) or by construction / the same library "
                      "functions main.rs calls (other stages)"]),
     "C16": dict(mk(spec_none, streams_none, "output faults on the real binary: missing directory (ENOENT), path below a regular file (ENOTDIR), path is a "
@@ -1322,7 +1396,8 @@ REGISTRY = {
         assumptions=["a write failure is reported by the writer's Result (serde_json::to_writer on an unbuffered File)"]),
     "C18": dict(mk(spec_c18, streams_c18, "seeded assignments (ties among sizes, empty and fixed courses, factors/offsets), room lists housed by construction "
                    "or arbitrary, fewer/more rooms than courses, duplicate capacities, room-kind files with split capacities and quantity-0 kinds; "
-                   "non-trivial = distinct room-feasible cases"), allow_axioms=tuple(sorted(vlib.FLOCQ_AXIOMS)),
+                   "non-trivial = distinct room-feasible cases; CLI stream: the 'possible course rooms' lines of --print compared bytewise with the model",
+                   extra_fn=c18_cli), allow_axioms=tuple(sorted(vlib.FLOCQ_AXIOMS)),
         explanation="C18 (every listed size is at least the course's size and is its room in an injective allocation that houses every course of "
                     "positive size), C18_nonempty, C18_kinds (listed kinds have positive quantity and a listed capacity; repaired by fix 3ff583c). "
                     "Rank-level theorems independent of the unstable sort's tie order; C18_course_level / C18_for_solutions carry them to course indices "
@@ -1333,7 +1408,9 @@ REGISTRY = {
         assumptions=["'takes place' = effective size >= 1"]),
 
     "C02": dict(mk(spec_c02, streams_c02, RULE_NS + "; no room lists; exact optimum by exhaustive search in the harness (<= 5 courses, <= 7 "
-                   "participants), its witness assignment certified in Coq (hard_okb, score_of)", known_fn=known_c02), allow_axioms=(),
+                   "participants), its witness assignment certified in Coq (hard_okb, score_of); CLI stream: the real binary's verdict and score "
+                   "against caobab::solve on generated files incl. tight instances (as many places as participants with choices, plus choice-less "
+                   "non-instructors)", known_fn=known_c02, extra_fn=c02_cli), allow_axioms=(),
         explanation="C02_final / C02_sized / C02_noTC: for every valid instance without rooms outside class TC, every worker count and "
                     "interleaving, the final best score is >= the score of every hard-feasible assignment, and 'no solution' only if none exists "
                     "(hypotheses: validity and the size bound the program enforces; scores fit u32; no panic site and no i32 Overflow are proved); "
@@ -1402,7 +1479,8 @@ REGISTRY = {
         trusted_base=["modelled, not verified: src/caobab.rs (precompute_problem, run_bab_node, check_feasibility, room stage), src/bab.rs "
                       "(worker loop as small-step system), src/hungarian.rs; critical sections assumed atomic (std Mutex/Condvar)"],
         assumptions=["instance validity as in the property text (validb, reflected by C01_valid_checker_sound)"]),
-    "C06": dict(mk(spec_c06, streams_node_solve(1), RULE_NS), allow_axioms=tuple(sorted(vlib.FLOCQ_AXIOMS)),
+    "C06": dict(mk(spec_c06, streams_node_solve(1), RULE_NS + "; CLI stream: the real binary with --rooms / --rooms-file (empty files included), "
+                   "housedb on the written assignment", extra_fn=c06_cli), allow_axioms=tuple(sorted(vlib.FLOCQ_AXIOMS)),
         explanation="C06_node / C06: a Feasible answer (and every best solution of the search, any schedule) passed the room gate, and passing "
                     "the gate means Housed: rank-wise comparison of the descending sorts (proved; the sort is proved to be a sort), which is EXACTLY the existence of an "
                     "allocation of pairwise distinct, sufficiently large rooms (C06_housed_iff, C06_allocation).  Generic "
